@@ -22,6 +22,7 @@ import (
 	"os"
 	"runtime"
 	"strings"
+	"sync/atomic"
 	"testing"
 	"testing/synctest"
 	"time"
@@ -68,6 +69,23 @@ type pssMachine struct {
 	midSendLeave bool
 	joinDuring   bool
 	deferredSub  bool
+	gatedLeave   bool
+
+	openGate *pssGate
+	gate     atomic.Pointer[pssGate] // armed: the next negative Add pauses right after it adjusted the ping counter
+}
+
+// pssGate stops a leaving subscriber inside the library, between "the counters say it is gone" and "its pending copy
+// of the in-flight message has been taken off the channel" (instrumentation point CasterNegAdded).
+type pssGate struct{ entered, release chan struct{} }
+
+func (m *pssMachine) hook(p int) {
+	if p == bigbuff.VerifCasterNegAdded {
+		if g := m.gate.Swap(nil); g != nil {
+			close(g.entered)
+			<-g.release
+		}
+	}
 }
 
 func (m *pssMachine) tr(f string, a ...any) {
@@ -78,6 +96,14 @@ func (m *pssMachine) tr(f string, a ...any) {
 }
 
 func (m *pssMachine) cleanup() {
+	m.gate.Store(nil)
+	if m.openGate != nil {
+		select {
+		case <-m.openGate.release:
+		default:
+			close(m.openGate.release)
+		}
+	}
 	for _, s := range m.subs {
 		if s.cancel != nil {
 			s.cancel()
@@ -536,6 +562,91 @@ func (m *pssMachine) ruleLeave(t *rapid.T) {
 	}
 }
 
+// ruleGatedLeave: a counted subscriber that has not received leaves in the middle of the delivery phase and is stopped
+// inside the library right after the counters were adjusted (its pending copy is still on its way); while it stands
+// there a new subscriber subscribes and goes on to receive. Nothing may go wrong: the leaver's unsubscribe completes
+// once it is let go, the Send accounts for it as absorbed, and the newcomer is not part of this Send.
+func (m *pssMachine) ruleGatedLeave(t *rapid.T) {
+	if !m.inDelivery() || m.subscribed() >= 5 {
+		t.Skip("no delivery phase in progress")
+	}
+	for _, o := range m.subs {
+		if o.counted && !o.received && !(o.kind == "manual" && (o.state == "idle" || o.state == "receiving")) && !(o.kind == "iter" && o.state == "receiving") {
+			t.Skip("the delivery phase cannot be finished by manual subscribers alone")
+		}
+	}
+	l := m.pick("gatedLeaver", func(s *pssSub) bool {
+		return s.kind == "manual" && s.state == "idle" && s.counted && !s.received
+	})
+	if l == nil {
+		t.Skip("no idle counted subscriber")
+	}
+	g := &pssGate{entered: make(chan struct{}), release: make(chan struct{})}
+	m.openGate = g
+	m.gate.Store(g)
+	x := m.x
+	l.leave = vkit.Launch("Add(-1)", func() any { return x.Add(-1) })
+	synctest.Wait()
+	entered := false
+	select {
+	case <-g.entered:
+		entered = true
+	default:
+		m.gate.Store(nil)
+	}
+	l.state = "left"
+	m.absorbed++
+	m.midSendLeave = true
+	m.tr("gatedLeave(%d, stopped-inside=%v)", l.id, entered)
+	var n *pssSub
+	if entered {
+		// the newcomer: subscribe, then a normal receive cycle
+		n = &pssSub{id: len(m.subs), kind: "manual", state: "receiving"}
+		n.quit, n.ack = make(chan struct{}), make(chan struct{})
+		quit, ack := n.quit, n.ack
+		got := make(chan int, 1)
+		n.bodyEvent = got
+		n.op = vkit.Launch("subscribe+manual-cycle", func() any {
+			x.Add(1)
+			select {
+			case v := <-x.C():
+				got <- v
+				<-ack
+				x.Wait()
+				return "waited"
+			case <-quit:
+				return fmt.Sprintf("left:%d", x.Add(-1))
+			}
+		})
+		for i := 0; i < 300; i++ {
+			runtime.Gosched()
+		}
+		m.gatedLeave = true
+		close(g.release)
+	}
+	m.openGate = nil
+	// the other counted subscribers take their copies so that the delivery phase can end
+	for _, o := range m.subs {
+		if o.kind == "manual" && o.state == "idle" && o.counted && !o.received {
+			m.startManualRecv(o)
+		}
+	}
+	synctest.Wait()
+	if !l.leave.Finished() {
+		m.fail("C07/unsubscribe-hang", "Add(-1) of subscriber %d, which left during the delivery phase without having received, is still blocked at quiescence (a subscriber that joined meanwhile: %v)", l.id, n != nil)
+	}
+	if l.leave.Panic != nil {
+		m.fail("C07/panic", "Add(-1) of subscriber %d panicked: %v", l.id, l.leave.Panic)
+	}
+	if n != nil {
+		m.subs = append(m.subs, n)
+		m.tr("sub%d(manual) while %d stood inside its unsubscribe", n.id, l.id)
+	}
+	m.reconcile()
+	m.checkPhases()
+	m.step()
+}
+
 func (m *pssMachine) ruleSend(t *rapid.T) {
 	if m.sending() {
 		t.Skip("send in flight")
@@ -569,6 +680,7 @@ func TestPubSubStep(t *testing.T) {
 		rapid.SyncTest(t, func(t *rapid.T) {
 			m := &pssMachine{prof: prof, t: t, st: st, x: bigbuff.NewChanPubSub(make(chan int))}
 			vkit.CaseStart(func() string { return strings.Join(m.trace, " ; ") })
+			bigbuff.VerifSetHook(m.hook)
 			defer func() {
 				if r := recover(); r != nil {
 					if _, ok := r.(pssAbort); ok {
@@ -593,6 +705,7 @@ func TestPubSubStep(t *testing.T) {
 			add("body", 3, m.ruleBody)
 			add("leave", 2, m.ruleLeave)
 			add("send", 3, m.ruleSend)
+			add("gatedLeave", 2, m.ruleGatedLeave)
 			add("observe", 1, func(*rapid.T) { m.step() }) // always enabled (rapid gives up when every drawn action skips)
 			t.Repeat(vkit.NoStarve(acts, nil))
 			// ---- teardown: finish the Send in flight, everybody leaves
@@ -659,7 +772,7 @@ func TestPubSubStep(t *testing.T) {
 			if left := vkit.BubbleOthers(); len(left) != 0 {
 				m.fail("C07/goroutine-left", "goroutines still blocked after everybody left:\n%s", vkit.DescribeGoroutines(left))
 			}
-			nt := m.midSendLeave || m.joinDuring || m.deferredSub
+			nt := m.midSendLeave || m.joinDuring || m.deferredSub || m.gatedLeave
 			var cls []string
 			if m.midSendLeave {
 				cls = append(cls, "leave-during-delivery")
@@ -669,6 +782,9 @@ func TestPubSubStep(t *testing.T) {
 			}
 			if m.deferredSub {
 				cls = append(cls, "subscribe-deferred-by-delivery")
+			}
+			if m.gatedLeave {
+				cls = append(cls, "join-while-leaver-stands-inside-unsubscribe")
 			}
 			st.Case(m.trace, nt, cls...)
 		})
